@@ -14,6 +14,7 @@ import (
 
 	"verif/internal/chancheck"
 	"verif/internal/evidence"
+	"verif/internal/synccheck"
 )
 
 func seed() int64 {
@@ -48,6 +49,13 @@ func main() {
 			usage()
 		}
 		os.Exit(check(os.Args[2], os.Args[3]))
+	case "gen":
+		// verif gen <ID> <case index>: print the generated case (debugging aid)
+		i, _ := strconv.Atoi(os.Args[3])
+		switch os.Args[2] {
+		case "C13":
+			fmt.Println(string(synccheck.Spec("quick", seed(), 1).Generate(seed(), i).JSON()))
+		}
 	case "replay":
 		if len(os.Args) < 3 {
 			usage()
@@ -90,6 +98,10 @@ func check(id, tier string) int {
 		}
 		return chancheck.Run(opt)
 	}
+	switch id {
+	case "C13":
+		return synccheck.Run(tier, seed(), workers())
+	}
 	fmt.Fprintf(os.Stderr, "unknown property %q\n", id)
 	return 2
 }
@@ -98,6 +110,8 @@ func replay(rp *evidence.Replay) int {
 	switch rp.Kind {
 	case "chanscript":
 		return chancheck.Replay(rp)
+	case "syncscript":
+		return synccheck.Replay(rp)
 	}
 	fmt.Fprintf(os.Stderr, "unknown replay kind %q\n", rp.Kind)
 	return 2
